@@ -286,6 +286,43 @@ def run(ctx):
         ctx.ok("c17.weekday", "c17.weekday|to_day_sch", "a week expands each (id, count) run to `count` copies of id", tw.loc())
     else:
         ctx.violation("c17.weekday", "c17.weekday|to_day_sch", "ScheduleWeek::to_day_sch is %s" % (show(n1)[:120] if n1 else "?"), tw.loc())
+    # every expansion of a yearly schedule goes through get_year_as_day_sch (whose alignment is decided above): any other reader of the
+    # period counts is a second implementation of the weekday alignment
+    import re as _re2
+    others = {}
+    for f in prog.fns.values():
+        if f.root != f.id or f.crate != "bemodel" or f.raw.get("impl_derived") or f.path.startswith(("bemodel::convert", "bemodel::purge", "bemodel::checks")):
+            continue
+        # every body of the function, closures bound to locals included (they are not reached through call arguments)
+        for bf in [f] + prog.closures_of(f):
+            sc = Scope(prog, bf)
+            for b, i, st in sc.body.statements():
+                if st["s"] != "assign":
+                    continue
+                for x in walk(sc.rvalue(st["rv"])):
+                    ln = leaf_name(x) if x[0] in ("proj", "elem") else None
+                    if ln and _re2.search(r"values\[\]\.1$", ln) and ("get_year(" in ln or ".year[]" in ln) and prog.root_of(sc.fn).id != g.id:
+                        others.setdefault(prog.root_of(sc.fn).id, []).append((sc, st.get("ln")))
+    for rid, hits in sorted(others.items()):
+        rf = prog.fns[rid]
+        key = "c17.weekday|second-expansion|%s" % rf.path
+        dropped = None
+        for sc in [Scope(prog, bf) for bf in [rf] + prog.closures_of(rf)]:
+            for b, t in sc.body.calls():
+                if short_callee(callee_name(t) or "") == "take":
+                    n = strip(sc._rw(sc.eb.call_node(t, b)))
+                    inner = strip(n[2][0]) if n[2] else None
+                    if inner is not None and inner[0] == "call" and short_callee(inner[1]) == "skip" and "cycle(" not in show(inner) and "Rem" in show(inner):
+                        dropped = (show(n)[:120], t.get("ln"))
+        if dropped:
+            ctx.violation("c17.weekday", key, "%s expands yearly schedules itself and takes the days of a period with `%s`: skip(start %% 7).take(n) without cycle() "
+                          "drops the days that run past the end of the week (periods not starting on a Monday lose weekday alignment)" % (rf.path.split("::")[-1], dropped[0]),
+                          rf.loc(dropped[1]))
+        else:
+            raise AnalysisError("%s reads the period counts of yearly schedules itself: a second implementation of the weekday alignment whose arithmetic this rule "
+                                "does not know (only get_year_as_day_sch is decided)" % rf.path)
+    if not others:
+        ctx.ok("c17.weekday", "c17.weekday|single-expansion", "get_year_as_day_sch is the only reader of the period counts of yearly schedules in the indicator code", g.loc())
     # ---------------- D3 occupancy
     ep = prog.method("energy::props::EnergyProps", "convert::From", "from")
     eroot = Scope(prog, ep)
